@@ -1097,8 +1097,9 @@ class Model:
             self._nodes, self._vars = deepcopy((self._nodes, self._vars))
 
         for node in self._nodes.values():
-            node._clear_outputs()
+            # raises for nodes of another model, before their outputs are touched
             node._set_model(self)
+            node._clear_outputs()
 
         for node in self._nodes.values():
             for _input in node.all_input_nodes():
